@@ -60,8 +60,11 @@ CheckSer(r) ==
                        G == IF n >= 3 THEN SubSeq(F, 3, n - 1) ELSE <<>>
                        D == {j \in 1..Len(E) : j > Len(G) \/ G[j] # E[j]}
                        j == IF D = {} THEN Len(E) + 1 ELSE CHOOSE x \in D : \A y \in D : x <= y
+                       nT == Len(LeavesOfItems(m.trailer))
                    IN [at |-> j, expected |-> IF j <= Len(E) THEN E[j] ELSE <<>>,
-                       got |-> IF j <= Len(G) THEN G[j] ELSE <<>>, nExpected |-> Len(E), nGot |-> Len(G)])
+                       got |-> IF j <= Len(G) THEN G[j] ELSE <<>>, nExpected |-> Len(E), nGot |-> Len(G),
+                       \* the wire is exactly the expected field list without the trailer's leaves
+                       trailerDropped |-> nT > 0 /\ G = SubSeq(E, 1, Len(E) - nT)])
           /\ (Framed(w, T) /\ SubSeq(F, 3, n - 1) = BodyFields(m) /\ F[1] = <<T.bs, m.beginString>>)
                => (w = Wire(m) \/ SpecErr(r.id, "Framed and field list agree but Wire differs"))
 
@@ -69,7 +72,9 @@ CheckParse(r) ==
   LET m == r.m
       w == r.wire
       tgt == IF r.sameTemplate THEN Blank(m) ELSE r.target
-      exp == RefParse(tgt, w)
+      \* the message itself when it was serialized as specified, otherwise what the wire really
+      \* carries (a serialization defect is reported once, by C17/C01, not again here)
+      exp == IF r.sameTemplate /\ w = Wire(m) THEN m ELSE RefParse(tgt, w)
       prop == IF r.lookalike THEN "C18" ELSE "C02"
   IN r.serOk /\ r.parsed =>
        /\ (r.sameTemplate => (SameContent(RefParse(Blank(m), Wire(m)), m)
